@@ -897,14 +897,14 @@ func AdoptSession(p Persistence, c *Config) (client *Client, warn []error, fatal
 		}
 	}
 
-	// instantiate client
+	// instantiate client, which normalizes the limits from c
+	client = newClient(&ruggedPersistence{Persistence: p}, c)
 	if n := len(publishAtLeastOnceKeys); n > c.AtLeastOnceMax {
 		return nil, warn, fmt.Errorf("mqtt: %d AtLeastOnceMax is less than the %d pending in session", c.AtLeastOnceMax, n)
 	}
 	if n := len(publishExactlyOnceKeys) + len(publishReleaseKeys); n > c.ExactlyOnceMax {
 		return nil, warn, fmt.Errorf("mqtt: %d ExactlyOnceMax is less than the %d pending in session", c.ExactlyOnceMax, n)
 	}
-	client = newClient(&ruggedPersistence{Persistence: p}, c)
 
 	// check for outbound publish pending confirmation
 	if keys = publishAtLeastOnceKeys; len(keys) != 0 {
